@@ -53,7 +53,7 @@ static int content_ok(const gbody *b, const uint8_t *c, size_t n) {
 /* one parser run with the given cut mask over positions (sorted cut offsets); fills a digest of flags+parts */
 typedef struct presult { uint64_t flags; int nparts; int type[8]; hx_buf name[8], value[8], ct[8], fname[8]; int64_t flen[8]; hx_buf files[4]; int nfiles; } presult;
 static presult R0, R1;
-static long n_eval; static cx_set outs;
+static long n_eval, n_parse_calls; static cx_set outs;
 
 static void run_parser(const gbody *b, const int *cuts, int ncuts, size_t uniform, presult *r) {
     nfiles = 0;
@@ -61,11 +61,11 @@ static void run_parser(const gbody *b, const int *cuts, int ncuts, size_t unifor
     bstr *bnd = bstr_dup_c(b->boundary);
     htp_mpartp_t *mp = htp_mpartp_create(cfg, bnd, 0);
     size_t prev = 0; const uint8_t *w = b->wire.p; size_t n = b->wire.n;
-    if (uniform) { for (size_t o = 0; o < n; o += uniform) { size_t l = n - o < uniform ? n - o : uniform; uint8_t *cp = hx_real_malloc(l); memcpy(cp, w + o, l); htp_mpartp_parse(mp, cp, l); hx_real_free(cp); } }
+    if (uniform) { for (size_t o = 0; o < n; o += uniform) { size_t l = n - o < uniform ? n - o : uniform; uint8_t *cp = hx_real_malloc(l); memcpy(cp, w + o, l); n_parse_calls++; htp_mpartp_parse(mp, cp, l); hx_real_free(cp); } }
     else {
         for (int i = 0; i <= ncuts; i++) {
             size_t end = i < ncuts ? (size_t) cuts[i] : n;
-            if (end > prev) { size_t l = end - prev; uint8_t *cp = hx_real_malloc(l); memcpy(cp, w + prev, l); htp_mpartp_parse(mp, cp, l); memset(cp, 0xEE, l); hx_real_free(cp); }
+            if (end > prev) { size_t l = end - prev; uint8_t *cp = hx_real_malloc(l); memcpy(cp, w + prev, l); n_parse_calls++; htp_mpartp_parse(mp, cp, l); memset(cp, 0xEE, l); hx_real_free(cp); }
             prev = end;
         }
     }
@@ -261,7 +261,7 @@ static int worker(int argc, char **argv) {
         }
     }
 out:
-    hx_emit_stat("executions", n_eval); hx_emit_stat("bodies", hx_shard_i == 0 ? body_id : 0); hx_emit_stat("distinct_outcomes", (long long) outs.cnt);
+    hx_emit_stat("executions", n_eval); hx_emit_stat("calls", n_parse_calls); hx_emit_stat("bodies", hx_shard_i == 0 ? body_id : 0); hx_emit_stat("distinct_outcomes", (long long) outs.cnt);
     return 0;
 }
 int main(int argc, char **argv) { return hx_supervise(argc, argv, worker); }
